@@ -1059,8 +1059,11 @@ class YAMLPath:
         prefix_str = str(prefix)
         path_str = str(path)
         if path_str.startswith(prefix_str):
-            path_str = path_str[len(prefix_str):]
-            return YAMLPath(path_str)
+            # The prefix must end where a segment of the path ends; /top is
+            # no prefix of /topping.
+            path_rest = path_str[len(prefix_str):]
+            if not path_rest or path_rest[0] in ("/", "["):
+                return YAMLPath(path_rest)
 
         return path
 
